@@ -69,6 +69,9 @@ def check_c15(case, stats=None):
             m = sl[0] if sl else None
             fl = F.flags.get(m, 0) if m is not None else 0
             known = m in c.fields["_st"] and c.fields["_st"].get(m) != "Z"
+            if c.op == "ctx_deregister" and r.ret == 0:
+                for oc in calls:
+                    oc.fields["_nested_teardown"] = True      # the context went away during these still-open calls
             # --- deny pub
             if c.op in ("tell", "publish", "pill") and known:
                 if fl & MOD_DENY_PUB:
@@ -131,7 +134,7 @@ def check_c15(case, stats=None):
                             live_by_name[name] = m
                         elif live_by_name.get(name) not in (inc, None):
                             pass        # the name was taken again (from the incumbent's stop callback) while it was being replaced
-                        elif r.ret != -11 and not (F.flags.get(inc, 0) & MOD_PERSIST and c.fields["_loop"]) and c.fields["_ctx"].get("ctx") == "1" and not (inner is not None and F.flags.get(inner, 0) & MOD_DENY_CTX):
+                        elif r.ret != -11 and not (F.flags.get(inc, 0) & MOD_PERSIST and c.fields["_loop"]) and c.fields["_ctx"].get("ctx") == "1" and not (inner is not None and F.flags.get(inner, 0) & MOD_DENY_CTX) and not c.fields.get("_nested_teardown"):
                             bad("replacement-refused", "registering module %d under the name of module %d, which allows replacement, returned %d" % (m, inc, r.ret), r)
                     else:
                         if r.ret != EEXIST and not (r.ret < 0 and (c.fields["_ctx"].get("ctx") != "1" or (inner is not None and F.flags.get(inner, 0) & MOD_DENY_CTX))):
